@@ -450,6 +450,11 @@ def run(ctx, chk):
              "store addresses a block after it was handed to the installed free, and no block is handed to it twice (every block released is still live when released and is not touched afterwards)")
     from props.c06 import check_no_access_after_free
     check_no_access_after_free(chk, "C13.no-access-after-free", prog, eff)
+    chk.rule("C13.drain", "every NULL-returning path of cbor_load that follows a decoder call leaves through the drain loop: each round releases "
+             "the top item and pops its record, and the loop is left on the stack-empty edge - nothing the decoder built stays behind "
+             "(each block goes to the installed free exactly once, not zero times; shared with C01.drain)")
+    from props.c01 import check_load_paths
+    check_load_paths(chk, prog, eff, R_window=None, R_drain="C13.drain", R_outcome=None)
     chk.exhaustive = True
 
 
